@@ -575,6 +575,35 @@ def run_task(task):
             if task["shard"] == 0:
                 res.sample({"engine": "exhaustive", "data": mine[-1].hex(),
                             "ops": [MENU[11][8], MENU[4][8], MENU[13][8]][:maxd]})
+        elif task["kind"] == "atheris":
+            # secondary engine (thorough tier): coverage-guided fuzzing of (data, history) byte programs with
+            # the same lockstep oracle, in a subprocess (libFuzzer ends the process)
+            import json
+            import os
+            import re
+            import subprocess
+            import sys
+            import tempfile
+            from vlib.runner import VERIF
+            d = tempfile.mkdtemp(prefix="c05fuzz_")
+            try:
+                outp = os.path.join(d, "out.json")
+                r = subprocess.run([sys.executable, "-B", os.path.join(VERIF, "vlib", "fuzz_c05.py"), str(task["runs"]),
+                                    str(task["seed"]), outp, "1" if task["corpus"] else "0"],
+                                   env=dict(os.environ, PYTHONHASHSEED="0"), capture_output=True, text=True)
+                out = json.load(open(outp)) if os.path.exists(outp) else None
+                m = re.search(r"Done (\d+) runs", r.stderr)
+                if out is None and not m:
+                    raise RuntimeError(f"atheris run failed: {r.stderr[-1500:]}")
+                execs = max(int(m.group(1)) if m else 0, (out or {}).get("execs", 0))
+                res.evaluations += execs
+                res.labels["atheris:executions"] += execs
+                res.labels["atheris:nontrivial_histories"] += (out or {}).get("nontrivial", 0)
+                if out and out.get("violation"):
+                    res.violations.append(out["violation"])
+            finally:
+                import shutil
+                shutil.rmtree(d, ignore_errors=True)
         elif task["kind"] == "long":
             for case in long_cases()[task["lo"]::task["step"]]:
                 res.evaluations += 1
@@ -619,6 +648,9 @@ def plan(tier, seed):
     tasks = [{"kind": "exh", "shard": s, "nshards": NSHARDS, "depth": DEPTH[tier]} for s in range(NSHARDS)]
     tasks += [{"kind": "hyp", "n": HYP_CASES[tier], "seed": seed * 1000 + w} for w in range(HYP_WORKERS)]
     tasks += [{"kind": "long", "lo": i, "step": 8} for i in range(8)]
+    import os
+    if tier == "thorough" and os.path.isdir(os.path.join(os.path.dirname(os.path.dirname(os.path.abspath(__file__))), ".deps", "atheris")):
+        tasks += [{"kind": "atheris", "runs": 60000, "seed": seed * 1000 + 700 + w, "corpus": w % 2 == 0} for w in range(16)]
     return tasks
 
 
